@@ -416,4 +416,35 @@ theorem bvhBuild_spec (sub : B → B → Prop) (boxH : H → B) (union : B → B
         · exact htrans _ _ _ (br h hh) (hun _ _).2
 end bvhbuild
 
+section hits
+variable {H K : Type}
+/-- two hit lists that contain the same *hitting* primitives give the same answer -/
+theorem listHit_congr_hits [LinearOrder K] (f : H → Option K) (primHit : H → K → K → Option K) (mn : K)
+    (hc : ∀ h mx, primHit h mn mx = (f h).bind (fun d => if d ≤ mx then some d else none))
+    (l₁ l₂ : List H) (mx : K)
+    (hmem : ∀ h d, primHit h mn mx = some d → (h ∈ l₁ ↔ h ∈ l₂)) :
+    listHit primHit l₁ mn mx = listHit primHit l₂ mn mx := by
+  obtain ⟨a1, a2⟩ := listHit_spec f primHit mn hc l₁ mx
+  obtain ⟨b1, b2⟩ := listHit_spec f primHit mn hc l₂ mx
+  cases h1 : listHit primHit l₁ mn mx with
+  | none =>
+    cases h2 : listHit primHit l₂ mn mx with
+    | none => rfl
+    | some d2 =>
+      obtain ⟨⟨h, hh, hp⟩, _⟩ := b2 d2 h2
+      have := a1 h1 h ((hmem h d2 hp).mpr hh)
+      rw [this] at hp; cases hp
+  | some d1 =>
+    obtain ⟨⟨h, hh, hp⟩, hmin1⟩ := a2 d1 h1
+    cases h2 : listHit primHit l₂ mn mx with
+    | none =>
+      have := b1 h2 h ((hmem h d1 hp).mp hh)
+      rw [this] at hp; cases hp
+    | some d2 =>
+      obtain ⟨⟨h', hh', hp'⟩, hmin2⟩ := b2 d2 h2
+      have e1 := hmin1 h' ((hmem h' d2 hp').mpr hh') d2 hp'
+      have e2 := hmin2 h ((hmem h d1 hp).mp hh) d1 hp
+      rw [le_antisymm e1 e2]
+end hits
+
 end PolyVerif.Tree
